@@ -25,7 +25,14 @@ pub struct Extracted {
 
 /// Linear extraction of `chosen` from `archive` into throttled sinks sharing one schedule.
 pub fn extract(archive: &[u8], chosen: &[String], sched: &Schedule) -> Result<Extracted, String> {
-    let mut rd = ArchiveReader::from_config(Cursor::new(archive), prog::reader_config(&[0])).map_err(|e| format!("open: {e:?}"))?;
+    // the archive source: an in-memory cursor, or (one archive length in three, times the size of the chosen
+    // subset) a source that returns at most 1 / 3 bytes per read call
+    let cap = match (archive.len() + chosen.len()) % 3 {
+        0 => 1,
+        1 => 3,
+        _ => usize::MAX,
+    };
+    let mut rd = ArchiveReader::from_config(prog::CapRead { inner: Cursor::new(archive), cap }, prog::reader_config(&[0])).map_err(|e| format!("open: {e:?}"))?;
     let st = env::shared(sched.clone());
     let mut map: HashMap<&String, ThrottledSink> = HashMap::new();
     let mut datas = Vec::new();
